@@ -27,6 +27,14 @@ def main(argv):
         return replay.replay(prop, a.replay)
     t0 = time.time()
     spec = registry.PROPS[prop]
+    # stale replay files of earlier runs of this property would only confuse
+    import glob
+    for f in glob.glob(os.path.join(xv.VERIF, "evidence", "replays", prop + "-*.json")):
+        if not a.only:
+            try:
+                os.unlink(f)
+            except OSError:
+                pass
     harnesses = [h for h in spec.get("kani", []) if (a.tier == "thorough" or h.tier == "quick")]
     if a.only:
         harnesses = [h for h in harnesses if h.name in a.only]
